@@ -9,10 +9,14 @@ static uint64_t seed_ctr, seed_every;
 static int seed_allvalues;
 static int mine(uint64_t id) { return v_mine(id); }
 
+static size_t seed_maxblen = 64;
+static const char *seed_only;
 static void seed_cb(const struct gstream *g, void *ctx)
 {
 	(void)ctx;
-	if (g->blen > 64 || g->xlen > 4096)
+	if (g->blen > seed_maxblen || g->xlen > 4096)
+		return;
+	if (seed_only && !strstr(g->desc, seed_only))
 		return;
 	if (seed_every && (seed_ctr++ % seed_every))
 		return;
@@ -373,6 +377,15 @@ int main(int argc, char **argv)
 		nfail += se_nfail;
 	}
 	if (!v_part || !strcmp(v_part, "closure")) {
+		/* seeds made by ISA-L's own level-0 encoder: they carry its default dynamic header (110 bytes + 6 bits), which the decoder
+		 * recognises through a byte-comparison shortcut; closure = every truncation / flip / substitution inside that header too */
+		seed_maxblen = 135;
+		seed_every = 0;
+		seed_allvalues = 0;
+		seed_only = "level=0 default";
+		gs_family_isal(0, mine, &idx, seed_cb, NULL);
+		seed_only = NULL;
+		seed_maxblen = 64;
 		seed_every = v_thorough ? 1 : 2;
 		seed_allvalues = 0;
 		gs_family_shapes(mine, &idx, seed_cb, NULL);
